@@ -49,6 +49,12 @@ CHECKS = {
         "text": "MC_Dag proves that all available units of a flow denote one yearly value in every well-formed configuration (derived nodes never shadow rules or data, no cycle). On the real rule base every derived time node is compared with its source by x_u*F(u) = x_v*F(v) on exact decimals at individual and group level with rounding on, the twelve converters are checked on a grid, and flow inputs are supplied in other time units with all default targets required to agree.",
         "note": "1e-12 relative for the factor identity, 1e-9 for alternative-unit inputs; one explicit definition per flow (W1) assumed and true of the rule base.",
     },
+    "C10": {
+        "level": "model_checking",
+        "technique": "TLA+ rounding specification over exact decimals (Round.tla) model-checked (MC_Round) and 'rounded exactly once' on the specified pipeline (MC_Dag); probe rule and every rounded rule of real runs validated by TLC (Trace_Arith round/equal/conv/agg/missingspec)",
+        "text": "Round.tla states the grid/direction/offset relation on exact decimals; TLC proves existence, uniqueness (up/down), one-step distance and idempotence on a rational grid, and that in the specified pipeline the rounding wrapper sits on every rule with a key and on no derived node. An identity probe rule goes through the public API for 5 bases x 3 directions x 3 offsets on crafted values with its derived yearly/household nodes, missing specifications must raise, and every rounded rule of the real environment is compared rounded vs unrounded on identical inputs.",
+        "note": "`nearest` ties accepted either way; binary floating point slack 1e-9 grid step on the closed side; integer witness supplied by the harness and verified by TLC; rounding specs taken from the environment (their resolution by date is C07).",
+    },
 }
 
 NOT_APPLICABLE = {}
